@@ -29,23 +29,11 @@ from .world_graph import GraphWorld
 
 
 def counter_divisor(repo: Repo, rel, cls):
-    """The divisor interactions_per_snapshots applies to the stored counters (both arms must agree)."""
-    fn = repo.get(rel, cls + ".interactions_per_snapshots")
-    divs = set()
-    for n in walk_no_nested(fn):
-        if isinstance(n, ast.BinOp) and isinstance(n.op, (ast.Div, ast.FloorDiv)) and isinstance(n.right, ast.Constant):
-            divs.add(n.right.value)
-    returns = [n for n in walk_no_nested(fn) if isinstance(n, ast.Return)]
-    raw = [r for r in returns if r.value is not None and not any(
-        isinstance(x, ast.BinOp) and isinstance(x.op, (ast.Div, ast.FloorDiv)) for x in ast.walk(r.value))
-        and not (isinstance(r.value, ast.Constant) and r.value.value == 0)]
-    if len(divs) > 1:
-        return None, "interactions_per_snapshots divides by different constants %s" % sorted(divs)
-    if raw and divs:
-        return None, "interactions_per_snapshots returns a counter undivided on one arm (%s)" % src(raw[0])
-    if not divs:
-        return 1, None
-    return divs.pop(), None
+    """The divisor interactions_per_snapshots applies to the stored counters, read off by *interpreting* the reader on an
+    index that stores 4 under one id (sa/readers_interp.py): divisor = 4 / answer.  (None, reason) when the reader gives no
+    number there - readers_interp reports that as a finding of its own (C04.counts)."""
+    from .readers_interp import interpreted_divisor
+    return interpreted_divisor(repo, cls)
 
 
 def worlds_for(directed, R):
